@@ -395,7 +395,7 @@ impl Check for TCheck {
     }
     fn runs(&self, tier: Tier) -> u64 {
         match tier {
-            Tier::Quick => 12_000,
+            Tier::Quick => 30_000,
             Tier::Thorough => 1_500_000,
         }
     }
